@@ -133,6 +133,7 @@ type target struct {
 	Deps    []string // generated instances of the same package this one refers to
 	Counts  []string // census buckets
 	NoLaw   bool     // dependency only (law-checked in its own family)
+	Solo    bool     // differential oracle: the emitted function must be the same text as when the target is the only directive of the package
 }
 
 type typeDecl struct {
